@@ -197,18 +197,24 @@ class KSet(Kind):
 
 
 class KDict(Kind):
-    def __init__(self, key, val):
+    def __init__(self, key, val, default=None):
         self.key, self.val = key, val
         self.name = f'Dict_{key.name}_{val.name}'
+        self.default = default     # collections.defaultdict: python constant produced for a missing key (e.g. b'')
 
     def sort(self):
         return _dt(self.name, [('mk_' + self.name,
                                 [('map_' + self.name, z3.ArraySort(self.key.sort(), self.val.sort())),
                                  ('dom_' + self.name, z3.ArraySort(self.key.sort(), z3.BoolSort()))])])
 
+    def _dflt(self, d):
+        if self.default is not None:
+            d.default = lambda ip_, py=self.default: VConst(py)
+        return d
+
     def wrap(self, term, ip=None):
         s = self.sort()
-        return VDict(s.accessor(0, 0)(term), s.accessor(0, 1)(term), self.key, self.val)
+        return self._dflt(VDict(s.accessor(0, 0)(term), s.accessor(0, 1)(term), self.key, self.val))
 
     def unwrap(self, v):
         if not isinstance(v, VDict):
@@ -219,7 +225,7 @@ class KDict(Kind):
     def fresh(self, ip, hint='d'):
         m = z3.Const(ip.fresh_name(hint + '_m'), z3.ArraySort(self.key.sort(), self.val.sort()))
         d = z3.Const(ip.fresh_name(hint + '_d'), z3.ArraySort(self.key.sort(), z3.BoolSort()))
-        return VDict(m, d, self.key, self.val)
+        return self._dflt(VDict(m, d, self.key, self.val))
 
 
 class KTuple(Kind):
